@@ -6,6 +6,7 @@ import PymoodeModel.Spacing
 import Mathlib.Algebra.Order.Field.Basic
 import Mathlib.Algebra.BigOperators.Group.List.Basic
 import Mathlib.Data.List.Perm.Basic
+import Mathlib.Data.List.Sort
 import Mathlib.Tactic.Linarith
 import Mathlib.Tactic.Ring
 import Mathlib.Tactic.FieldSimp
@@ -190,6 +191,53 @@ theorem normCoord_nadir (ideal nadir : α) (h : ideal < nadir) : normCoord ideal
 example : spacingSq (3:ℚ) [1, 1, 1] = 0 := by
   have := spacingSq_zero_of_equal (1:ℚ) 3 (by norm_num)
   simpa using this
+
+end C20
+end Pymoode
+
+namespace Pymoode
+namespace C20
+
+variable {α : Type} [Field α] [LinearOrder α] [IsStrictOrderedRing α]
+
+theorem leB_iff (a b : α) : leB a b = true ↔ a ≤ b := by
+  simp [leB]
+
+theorem sort_pairwise_le (l : List α) : (l.mergeSort leB).Pairwise (· ≤ ·) := by
+  have := List.pairwise_mergeSort (le := leB (α := α))
+    (fun a b c h1 h2 => (leB_iff a c).mpr (le_trans ((leB_iff a b).mp h1) ((leB_iff b c).mp h2)))
+    (fun a b => by
+      rcases le_total a b with h | h
+      · simp [(leB_iff a b).mpr h]
+      · simp [(leB_iff b a).mpr h]) l
+  exact this.imp (fun h => (leB_iff _ _).mp h)
+
+/-- **`np.partition(D, 1)[:, 1]` is the distance to the nearest *other* point, duplicates
+included**: if entry `i` of a row is a minimum of the row (the zero self-distance on the diagonal),
+the second smallest entry of the row is the smallest of the remaining entries -/
+theorem secondSmallest_eq_min_other (l : List α) (i : Nat) (hi : i < l.length)
+    (hmin : ∀ x ∈ l, l[i] ≤ x) :
+    secondSmallest l = ((l.eraseIdx i).mergeSort leB)[0]? := by
+  have hperm : l.Perm (l[i] :: l.eraseIdx i) := (List.getElem_cons_eraseIdx_perm hi).symm
+  have hsorted2 : (l[i] :: (l.eraseIdx i).mergeSort leB).Pairwise (· ≤ ·) := by
+    rw [List.pairwise_cons]
+    refine ⟨fun x hx => ?_, sort_pairwise_le _⟩
+    have : x ∈ l.eraseIdx i := (List.mergeSort_perm _ _).subset hx
+    exact hmin x (List.mem_of_mem_eraseIdx this)
+  have hperm2 : (l.mergeSort leB).Perm (l[i] :: (l.eraseIdx i).mergeSort leB) :=
+    (List.mergeSort_perm l leB).trans (hperm.trans (List.Perm.cons _ (List.mergeSort_perm _ _).symm))
+  have heq : l.mergeSort leB = l[i] :: (l.eraseIdx i).mergeSort leB :=
+    List.Perm.eq_of_pairwise (le := (· ≤ ·)) (fun a b _ _ h1 h2 => le_antisymm h1 h2)
+      (sort_pairwise_le l) hsorted2 hperm2
+  unfold secondSmallest
+  rw [heq]
+  exact List.getElem?_cons_succ
+
+/-- non-vacuity: a row with a duplicate point (two zero entries) meets the hypothesis -/
+example : ∀ x ∈ [(3:ℚ), 0, 5, 0], ([(3:ℚ), 0, 5, 0])[1] ≤ x := by
+  intro x hx
+  simp at hx
+  rcases hx with rfl | rfl | rfl <;> norm_num
 
 end C20
 end Pymoode
